@@ -120,7 +120,8 @@ def random_program(rng, *, max_cleanups=4, kinds=RAISE_KINDS, p_raise=0.35, feat
             elif r < 0.90 and "details" in feats:
                 acts.append(detail_action(rng, tok, feats))
             elif r < 0.95 and "onexc" in feats:
-                acts.append(["onexc", tok("H"), "onexc_raise" in feats and rng.random() < 0.4])
+                acts.append(["onexc", tok("H"), "onexc_raise" in feats and rng.random() < 0.4]
+                            + (["eq"] if rng.random() < 0.4 else []))
             elif "late_handler" in feats and custom and rng.random() < 0.5:
                 acts.append(["handler", rng.choice(custom)[7:],
                              rng.choice(["skip", "failure", "error"]), 0])
